@@ -39,11 +39,23 @@ def _transition(args):
     if getattr(model, "fresh_import", False):
         fresh_joserfc()
     st = model.make()
-    for h in hist:
-        model.apply(st, h)
-    obs = model.apply(st, op)
-    vs = model.check(hist, op, obs, st) or []
-    return hist, op, model.canon(st), vs, model.bucket(obs) if hasattr(model, "bucket") else str(obs)[:40]
+    try:
+        for h in hist:
+            model.apply(st, h)
+        obs = model.apply(st, op)
+        vs = model.check(hist, op, obs, st) or []
+        key = model.canon(st)
+    except (KeyboardInterrupt, SystemExit, MemoryError, AssertionError):
+        raise
+    except Exception as e:  # noqa
+        # an operation of the model (they all catch the library's documented exceptions themselves) blew up in the middle of a history:
+        # on the unchanged tree this does not happen; it is reported as a finding about this history, not as a crash of the search
+        import traceback
+        where = traceback.extract_tb(e.__traceback__)[-1]
+        v = {"fingerprint": f"{type(model).__name__}: an operation raises {type(e).__name__} in the middle of a history [{short(op)}]",
+             "what": f"history {[short(h) for h in hist]} then {short(op)}: {e!r} at {where.filename.split('/')[-1]}:{where.lineno}", "detail": {}}
+        return hist, op, ("raised", repr(hist), repr(op)), [v], "RAISED:" + type(e).__name__
+    return hist, op, key, vs, model.bucket(obs) if hasattr(model, "bucket") else str(obs)[:40]
 
 
 def bfs(model, depth, workers=None, budget_s=None):
